@@ -20,6 +20,8 @@ Inductive iobs :=
 | IM (kind : Z) (m : list (list bool))              (* 0 ragged mask / 1 flat mask (one row) *)
 | IS (kind : Z) (l : list (list Z))                 (* 0 list of strings / 1 one string (one row) *)
 | IErr (code : Z)                                   (* 0 EncodingError / 1 any other exception *)
+| IQ                                                (* deliberately NOT observed: touching a lazily gathered view would
+                                                       materialise it and change what later steps exercise *)
 | IX.                                               (* anything the harness could not classify *)
 
 Record istep := {
@@ -27,6 +29,8 @@ Record istep := {
   i_writable : bool;                   (* numpy writeable flag of the current buffer before the step *)
   i_obs : iobs;                        (* implementation *)
   i_orig : option (list (list Z));     (* text of the object copy() was called on, re-read after this step *)
+  i_root : option (list (list Z));     (* text of the INITIAL array re-read after this step, when the program only
+                                          assigns into an independent copy (it must still be the initial text) *)
   i_exp : iobs                         (* Python's own list/str semantics (raw field unused) *)
 }.
 Record case := {
@@ -58,6 +62,7 @@ Definition obs_matches (encid : Z) (useraw : bool) (o : obs) (i : iobs) : bool :
   | OS1 s, IS 1 [s'] => zlist_eqb s s'
   | OErr, IErr 0 => true
   | ORaise, IErr 1 => true
+  | _, IQ => true
   | _, _ => false
   end.
 Definition saved_matches (dec : value -> value) (saved : option value) (orig : option (list (list Z))) : bool :=
@@ -66,6 +71,8 @@ Definition saved_matches (dec : value -> value) (saved : option value) (orig : o
   | Some v, Some t => zll_eqb (snd (value_rows (dec v))) t
   | _, _ => false
   end.
+
+Definition is_quiet (i : iobs) : bool := match i with IQ => true | _ => false end.
 
 Definition init_value (P : prims) (c : case) : option value :=
   if k_ragged c then init_rows P (enc_of_case c) (k_init c)
@@ -87,7 +94,8 @@ Definition spec_ok (c : case) : bool :=
       && all2 (fun (so : obs * option value) (st : istep) =>
                  obs_matches (k_encid c) false (fst so) (i_exp st)        (* Spec = Python's own semantics *)
                  && obs_matches (k_encid c) false (fst so) (i_obs st)     (* implementation = Spec *)
-                 && saved_matches (fun v => v) (snd so) (i_orig st))
+                 && (is_quiet (i_obs st) || saved_matches (fun v => v) (snd so) (i_orig st))
+                 && match i_root st with None => true | Some t => zll_eqb (snd (value_rows v0)) t end)
               (s_run v0 None (map i_op (k_steps c))) (k_steps c)
   end.
 
@@ -109,7 +117,7 @@ Definition unmodelled (v : value) (o : op) : bool :=
   | _, _ => false
   end.
 
-Fixpoint model_steps (encid : Z) (v : value) (saved : option value) (steps : list istep) : bool :=
+Fixpoint model_steps (encid : Z) (root : list (list Z)) (v : value) (saved : option value) (steps : list istep) : bool :=
   match steps with
   | [] => true
   | st :: r =>
@@ -118,11 +126,12 @@ Fixpoint model_steps (encid : Z) (v : value) (saved : option value) (steps : lis
       let saved' := match i_op st with Copy => Some v | _ => saved end in
       obs_matches encid true ob (i_obs st)                  (* raw codes, masks, strings, exception class *)
       && obs_matches encid false (dec_obs ob) (i_obs st)    (* and the decoded text *)
-      && match i_op st with Copy => true | _ => saved_matches dec_value saved (i_orig st) end
+      && match i_op st with Copy => true | _ => is_quiet (i_obs st) || saved_matches dec_value saved (i_orig st) end
+      && match i_root st with None => true | Some t => zll_eqb root t end
       && match ob with
          | ORaise => true      (* the code at HEAD raised (a finding): the remaining steps were generated for the
                                   state the step should have produced, they are not defined for the actual one *)
-         | _ => model_steps encid v' saved' r
+         | _ => model_steps encid root v' saved' r
          end
   end.
 
@@ -132,5 +141,5 @@ Definition model_ok (c : case) : bool :=
   | Some v0 =>
       obs_matches (k_encid c) true (OV v0) (k_init_obs c)
       && obs_matches (k_encid c) false (OV (dec_value v0)) (k_init_obs c)
-      && model_steps (k_encid c) v0 None (k_steps c)
+      && model_steps (k_encid c) (snd (value_rows (dec_value v0))) v0 None (k_steps c)
   end.
